@@ -633,14 +633,23 @@ func (ex *exprTr) call(x *ast.CallExpr) Val {
 		switch a.typ.Underlying().(type) {
 		case *types.Slice:
 			ref = slRef(a.t)
-		case *types.Pointer, *types.Map:
+		case *types.Pointer, *types.Map, *types.Signature:
 			ref = vc.asTerm(a)
 		default:
-			vc.fail("contract: fresh() needs a slice, pointer or map")
+			vc.fail("contract: fresh() needs a slice, pointer, map or function value")
 		}
-		return Val{t: app(">=", ref, vc.allocGet(vc.entry)), typ: rt}
+		// (in a callee's postcondition at a call site the activation is the call: counted from the pre-call state)
+		base := vc.entry
+		if ex.old != nil {
+			base = ex.old
+		}
+		return Val{t: app(">=", ref, vc.allocGet(base)), typ: rt}
 	case "verif_lastLoad", "verif_lastCasOld", "verif_lastCasNew", "verif_lastCasOK":
 		if v, ok := ex.atomicGhost(name, rt); ok {
+			return v
+		}
+	case "verif_invoked", "verif_tally":
+		if v, ok := ex.ghostBuiltin(name, []Val{ex.tr(x.Args[0])}, rt); ok {
 			return v
 		}
 	case "verif_rangeseen":
